@@ -276,27 +276,12 @@ func (c *VirtualTable) BestIndex(input []IndexInput, order []OrderInput) (*Index
 		}
 		out.EstimatedCost /= 2.0
 	}
-	out.AlreadyOrdered = true
-	var desc *bool
-	for i := range order {
-		if order[i].Column != c.KeyCol {
-			out.AlreadyOrdered = false
-		}
-		if desc != nil {
-			return nil, errors.New("order specified multiple times")
-		}
-		v := order[i].Desc
-		desc = &v
-	}
-	if desc == nil {
-		a := false
-		desc = &a
-	}
-	if *desc {
-		// Scan forward and leave descending order to SQLite's sorter: the
-		// tree's backward cursor skips entries or fails on multi-level trees.
-		out.AlreadyOrdered = false
-	}
+	// SQLite passes every term of ORDER BY (or of GROUP BY / DISTINCT). The
+	// scan is ascending by key, which is unique: that satisfies any list
+	// that starts with the key ascending, and nothing else. A descending
+	// key is left to SQLite's sorter too: the tree's backward cursor skips
+	// entries or fails on multi-level trees.
+	out.AlreadyOrdered = len(order) == 0 || order[0].Column == c.KeyCol && !order[0].Desc
 	out.IdxStr = "asc  " + out.IdxStr
 	dbg("BESTINDEX %+v -> %s\n", input, out.IdxStr)
 	return out, nil
